@@ -11,7 +11,7 @@ use std::{
 use tempfile::TempDir;
 
 use adlt::{
-    dlt::{DltChar4, DLT_MAX_STORAGE_MSG_SIZE},
+    dlt::{DltChar4, DLT_MIN_PARSER_LOOKAHEAD_SIZE},
     filter::{
         functions::{filters_from_convert_format, filters_from_dlf},
         Char4OrRegex, Filter,
@@ -787,7 +787,7 @@ pub fn convert<W: std::io::Write + Send + 'static>(
     // we use a relatively small 512kb chunk size as we're processing
     // the data multithreaded reader in bigger chunks slows is in total slower
 
-    //assert!(BUFREADER_CAPACITY > DLT_MAX_STORAGE_MSG_SIZE);
+    //assert!(BUFREADER_CAPACITY > DLT_MIN_PARSER_LOOKAHEAD_SIZE);
 
     let mut messages_processed: adlt::dlt::DltMessageIndexType = 0;
     let mut messages_output: adlt::dlt::DltMessageIndexType = 0;
@@ -800,7 +800,7 @@ pub fn convert<W: std::io::Write + Send + 'static>(
             Ok(fi) => {
                 info!(log, "opened file {} {:?}", &input_file_name, &fi);
                 let buf_reader =
-                    LowMarkBufReader::new(fi, BUFREADER_CAPACITY, DLT_MAX_STORAGE_MSG_SIZE);
+                    LowMarkBufReader::new(fi, BUFREADER_CAPACITY, DLT_MIN_PARSER_LOOKAHEAD_SIZE);
                 get_dlt_message_iterator(
                     std::path::Path::new(&input_file_name)
                         .extension()
